@@ -112,6 +112,10 @@ func runC13(c *fw.Ctx) {
 		t.SaveRoot()
 		cm := m.Copy()
 		croot, cw := cm.Ref()
+		var copied wmpt.Node // alternative checkpoint object for RollbackTrie: a copy of the live root
+		if cw > 0 {
+			copied = t.CopyRoot(r.Intn(8))
+		}
 		s0 := st.KeySet()
 		c.Tracef("checkpoint (SaveRoot) root=%x weight=%d", croot[:4], cw)
 		if !mutate(1+r.Intn(8), true) || !commit(lvl) {
@@ -123,11 +127,28 @@ func runC13(c *fw.Ctx) {
 			c.Tracef("gc")
 			_ = t.DeleteNodes()
 		}
+		if r.Intn(4) == 0 { // a second flush with nothing to write (optionally after a rejected delete of an absent key)
+			if r.Intn(2) == 0 {
+				absent := g.Key(nil)
+				if _, ok := m[string(absent)]; !ok {
+					_ = t.Update(absent, nil, 0)
+				}
+			}
+			c.Tracef("commit(%d) again with nothing to write", lvl)
+			if b2, err := t.Commit(lvl); err == nil {
+				_ = b2.Commit(true)
+			}
+			c.Count("empty_commits_before_rollback", 1)
+		}
 		via := "Rollback"
 		if r.Intn(2) == 0 {
 			via = "RollbackTrie"
 			c.Tracef("RollbackTrie(checkpoint hash node)")
-			if cw > 0 {
+			if cw > 0 && r.Intn(2) == 0 {
+				c.Tracef("(checkpoint object = CopyRoot taken at the checkpoint)")
+				t.RollbackTrie(copied)
+				c.Count("rollbacks_to_a_copied_root", 1)
+			} else if cw > 0 {
 				t.RollbackTrie(wmpt.NewHashNode(croot, cw))
 			} else {
 				t.RollbackTrie(nil)
@@ -260,7 +281,7 @@ func init() {
 		ID:    "C13",
 		Level: "exploration",
 		Rule: "each case: build and commit a checkpoint state at a collapse level 0..5 (1 in 12 with an empty checkpoint; optionally one GC pass), SaveRoot, then 1..8 changes (new keys, changed values, unchanged re-writes, delete-and-re-add of identical content, deletes), " +
-			"commit at the same level, optionally one GC pass, then Rollback() or RollbackTrie(checkpoint hash node). Oracle: Root()/Weight() equal the checkpoint's; the full observational check (every block's owner, value, verifying proof; every canonical node present) passes on the live trie and on a trie reopened " +
+			"commit at the same level, optionally one GC pass, optionally a second Commit with nothing to write (possibly after a rejected delete of an absent key), then Rollback() or RollbackTrie (with a hash node, or with a CopyRoot(level) copy taken at the checkpoint). Oracle: Root()/Weight() equal the checkpoint's; the full observational check (every block's owner, value, verifying proof; every canonical node present) passes on the live trie and on a trie reopened " +
 			"from the checkpoint root; with S0/S1/S2 the storage key sets at checkpoint / after the commit / after rollback, (S1 \\ S0) ∩ S2 is empty; a quarter of the quick cases and all thorough cases add two GC passes after the rollback and repeat the checks; a third of the histories then apply the same batch again, commit and roll back a second time (nothing of either commit may remain); then the history continues from the rolled-back trie (new changes, commit, full check, reopen), and half of the histories run a second checkpoint/commit/rollback cycle. distinct non-trivial = distinct traces",
 		Cases: func(tier string) int {
 			if tier == "thorough" {
@@ -270,7 +291,7 @@ func init() {
 		},
 		Run: runC13,
 		Floors: map[string]int64{"rollbacks": 20000, "rollback_via:Rollback": 8000, "rollback_via:RollbackTrie": 8000, "gc_between_commit_and_rollback": 8000, "change:unchanged-rewrite": 3000, "change:del-readd-identical": 3000,
-			"change:new": 20000, "change:deleted": 5000, "post_rollback_gc_checks": 4000, "commits_after_rollback": 10000, "retried_batches_rolled_back": 4000},
+			"change:new": 20000, "change:deleted": 5000, "post_rollback_gc_checks": 4000, "commits_after_rollback": 10000, "retried_batches_rolled_back": 4000, "rollbacks_to_a_copied_root": 3000, "empty_commits_before_rollback": 4000},
 		Assumptions: []string{"at most one GC pass between the commit and the rollback (the property's domain)"},
 	})
 }
